@@ -1,10 +1,199 @@
 import TempestVerif.Drv.Util
-/- line-protocol handlers of property C08 (stub: no commands yet) -/
+import TempestVerif.Model.FS
+import TempestVerif.Model.Checkpoint
+import TempestVerif.Gen.Checkpoint
+/- line-protocol handlers of property C08 (checkpoints).
+
+   fs.crash proto=<direct|temprename> old=<none|bytes> payload=<bytes>
+       → the distinct contents under the final name over ALL crash states, sorted (by length, then lexicographically),
+         joined by `|`; a content is `absent` or a byte list (`-` = empty file)
+   fs.classify ops=<op;op;…> final=<name>      ops: mkdir:p open:p write:p:N flush:p fsync:p close:p rename:p:q
+       → direct | temprename | none
+   fs.shape ops=<op;op;…>                      → the trace with payloads forgotten and runs of writes merged (same syntax, no sizes)
+   fs.gen                                      → shape=<generated saveOps> class=<…> load=<method> final=<0|1> pool=<0|1>
+   ckpt.roundtrip cur=<k:v,…> hist=<k:v/v/…,…> ndim=<n>
+       → `load fresh (save s)` through the model: cur=<…> hist=<…> ndim=<n>   (keys sorted)   or `error`
+         values: N (None)  i<int>  r<bits>  a<tag>;   an empty history list is `k:-`
+   ckpt.run cur=… hist=… ndim=… iters=<ncalls>;<k:v,…>|<ncalls>;<k:v,…>…
+       → the state after running the iterations from the given state (same output format) or `error`
+   ckpt.cadence t0=<int> k=<int> n=<nat>       → <periodic iteration numbers> final=<0|1>
+-/
 namespace Drv.C08
 open Drv
 
+/-! ### file system -/
+section fs
+open Model.FS
+
+def parseBytes? (s : String) : Option Bytes := parseNatList? s
+
+def showContent : Option Bytes → String
+  | none => "absent"
+  | some b => showList toString b
+
+def ltBytes : List Nat → List Nat → Bool
+  | [], [] => false
+  | [], _ => true
+  | _, [] => false
+  | a :: as, b :: bs => a < b || (a == b && ltBytes as bs)
+
+/-- absent first, then by length, then lexicographically -/
+def ltContent : Option Bytes → Option Bytes → Bool
+  | none, none => false
+  | none, some _ => true
+  | some _, none => false
+  | some a, some b => a.length < b.length || (a.length == b.length && ltBytes a b)
+
+def insertSorted (x : Option Bytes) : List (Option Bytes) → List (Option Bytes)
+  | [] => [x]
+  | y :: r => if x == y then y :: r else if ltContent x y then x :: y :: r else y :: insertSorted x r
+
+def canonical (l : List (Option Bytes)) : List (Option Bytes) := l.foldl (fun acc x => insertSorted x acc) []
+
+def crashContents (proto : String) (old : Option Bytes) (payload : Bytes) : Option String :=
+  let final := "final"
+  let fs0 : FS := match old with | some b => [(final, b)] | none => []
+  let ops? : Option (List FsOp) :=
+    if proto == "direct" then some (direct final payload)
+    else if proto == "temprename" then some (tempRename final payload) else none
+  ops?.map fun ops => "|".intercalate ((canonical ((crashStates ops fs0).map (lookup final))).map showContent)
+
+def parseOp? (s : String) : Option (FsOpOf Nat) :=
+  match s.splitOn ":" with
+  | ["mkdir", p] => some (.mkdir p)
+  | ["open", p] => some (.openTrunc p)
+  | ["write", p, n] => n.toNat?.map (.write p)
+  | ["flush", p] => some (.flush p)
+  | ["fsync", p] => some (.fsync p)
+  | ["close", p] => some (.close p)
+  | ["rename", p, q] => some (.rename p q)
+  | _ => none
+
+def parseOps? (s : String) : Option (List (FsOpOf Nat)) :=
+  if s == "-" then some [] else (s.splitOn ";").mapM parseOp?
+
+def showShapeOp : FsOpOf Unit → String
+  | .mkdir p => s!"mkdir:{p}"
+  | .openTrunc p => s!"open:{p}"
+  | .write p _ => s!"write:{p}"
+  | .flush p => s!"flush:{p}"
+  | .fsync p => s!"fsync:{p}"
+  | .close p => s!"close:{p}"
+  | .rename p q => s!"rename:{p}:{q}"
+
+def showShape (l : List (FsOpOf Unit)) : String :=
+  if l.isEmpty then "-" else ";".intercalate (l.map showShapeOp)
+
+def showProto : Option Protocol → String
+  | some .direct => "direct"
+  | some .tempRename => "temprename"
+  | none => "none"
+
+end fs
+
+/-! ### state maps -/
+section ckpt
+open Model.Checkpoint
+
+def parseVal? (s : String) : Option Val :=
+  if s == "N" then some .none else
+  match s.toList with
+  | 'i' :: r => (String.ofList r).toInt?.map .int
+  | 'r' :: r => (String.ofList r).toNat?.map .real
+  | 'a' :: r => (String.ofList r).toNat?.map .arr
+  | _ => none
+
+def showVal : Val → String
+  | .none => "N"
+  | .int n => s!"i{n}"
+  | .real b => s!"r{b}"
+  | .arr t => s!"a{t}"
+
+def parseCur? (s : String) : Option (List (Key × Val)) :=
+  if s == "-" then some [] else
+  (s.splitOn ",").mapM fun e => match e.splitOn ":" with
+    | [k, v] => (parseVal? v).map fun v => (k, v)
+    | _ => none
+
+def parseHist? (s : String) : Option (List (Key × List Val)) :=
+  if s == "-" then some [] else
+  (s.splitOn ",").mapM fun e => match e.splitOn ":" with
+    | [k, vs] => (if vs == "-" then some [] else (vs.splitOn "/").mapM parseVal?).map fun l => (k, l)
+    | _ => none
+
+def insertKey {β : Type} (x : Key × β) : List (Key × β) → List (Key × β)
+  | [] => [x]
+  | y :: r => if x.1 < y.1 then x :: y :: r else y :: insertKey x r
+
+def sortKeys {β : Type} (l : List (Key × β)) : List (Key × β) := l.foldl (fun acc x => insertKey x acc) []
+
+/-- one entry per key, as `lookup` reads them (first match), sorted by key -/
+def normal {β : Type} (l : List (Key × β)) : List (Key × β) :=
+  sortKeys ((l.map (·.1)).eraseDups.filterMap fun k => (lookup k l).map fun v => (k, v))
+
+def showState (s : State) : String :=
+  let cur := (normal s.current).map fun kv => s!"{kv.1}:{showVal kv.2}"
+  let hist := (normal s.history).map fun kv => s!"{kv.1}:{if kv.2.isEmpty then "-" else "/".intercalate (kv.2.map showVal)}"
+  s!"cur={if cur.isEmpty then "-" else ",".intercalate cur} hist={if hist.isEmpty then "-" else ",".intercalate hist} ndim={s.nDim}"
+
+def parseState? (args : List (String × String)) : Option State :=
+  match (getArg args "cur").bind parseCur?, (getArg args "hist").bind parseHist?, (getArg args "ndim").bind String.toNat? with
+  | some c, some h, some n => some { current := c, history := h, nDim := n }
+  | _, _, _ => none
+
+def parseIter? (s : String) : Option StepIn :=
+  match s.splitOn ";" with
+  | [n, vals] => match n.toNat?, parseCur? vals with
+    | some n, some v => some { nCalls := n, vals := v }
+    | _, _ => none
+  | _ => none
+
+def parseIters? (s : String) : Option (List StepIn) :=
+  if s == "-" then some [] else (s.splitOn "|").mapM parseIter?
+
+end ckpt
+
 def handle (cmd : String) (args : List (String × String)) : Option String :=
   match cmd with
+  | "fs.crash" =>
+    let old? : Option (Option Model.FS.Bytes) := match getArg args "old" with
+      | some "none" => some none
+      | some s => (parseBytes? s).map some
+      | none => none
+    match getArg args "proto", old?, (getArg args "payload").bind parseBytes? with
+    | some proto, some old, some payload => some ((crashContents proto old payload).getD "bad-op")
+    | _, _, _ => some "bad-op"
+  | "fs.classify" =>
+    match (getArg args "ops").bind parseOps?, getArg args "final" with
+    | some ops, some final => some (showProto (Model.FS.classify ops final))
+    | _, _ => some "bad-op"
+  | "fs.shape" =>
+    match (getArg args "ops").bind parseOps? with
+    | some ops => some (showShape (Model.FS.mergeWrites (Model.FS.shapeOf ops)))
+    | none => some "bad-op"
+  | "fs.gen" =>
+    some s!"shape={showShape (Model.FS.mergeWrites Gen.Checkpoint.saveOps)} class={showProto (Model.FS.classify Gen.Checkpoint.saveOps "final")} load={Gen.Checkpoint.loadMethod} final={showBool Gen.Checkpoint.finalSave} pool={showBool (Gen.Checkpoint.poolDetached && Gen.Checkpoint.poolReattachInFinally)}"
+  | "ckpt.roundtrip" =>
+    match parseState? args with
+    | some s =>
+      -- `dec (enc d) = some d` (dill, trusted): the round trip through the bytes is the identity on the dictionary
+      match Model.Checkpoint.loadDict (Model.Checkpoint.init 1) (Model.Checkpoint.toDict s) with
+      | some s' => some (showState s')
+      | none => some "error"
+    | none => some "bad-op"
+  | "ckpt.run" =>
+    match parseState? args, (getArg args "iters").bind parseIters? with
+    | some s, some is =>
+      match Model.Checkpoint.runIters s is with
+      | some s' => some (showState s')
+      | none => some "error"
+    | _, _ => some "bad-op"
+  | "ckpt.cadence" =>
+    match (getArg args "t0").bind String.toInt?, (getArg args "k").bind String.toInt?, (getArg args "n").bind String.toNat? with
+    | some t0, some k, some n =>
+      if k ≤ 0 then some "bad-op" else
+      some s!"{showList toString (Model.Checkpoint.periodicSaves t0 k n)} final={showBool Gen.Checkpoint.finalSave}"
+    | _, _, _ => some "bad-op"
   | _ => none
 
 end Drv.C08
